@@ -110,7 +110,6 @@ def attribute(G, t, c, glob_only: set, match_only: set, raw_results: list[str], 
     nstars = sum(1 for ss in segs for s in ss if s in ('**', '***'))
     matchbase = bool(c.flags & G.MATCHBASE)
     ext = bool(c.flags & G.EXTGLOB)
-    empty_seg = ext and any(can_empty(s) for ss in segs for s in ss if s not in ('**', '***'))
     empty_last = ext and any(ss and can_empty(ss[-1]) for ss in segs)
     star_last = any(ss and ss[-1] in ('**', '***') for ss in segs)
     globstar = bool(c.flags & (G.GLOBSTAR | G.GLOBSTARLONG))
@@ -161,13 +160,9 @@ def attribute(G, t, c, glob_only: set, match_only: set, raw_results: list[str], 
             ids.add('KF-D17')
         elif (u + '/') in raw_results and not os.path.isdir(f):
             ids.add('KF-D17')                      # `f/**` -> `f/` for a regular file
-        elif matchbase and empty_seg:
-            ids.add('KF-G6')                       # MATCHBASE leaks into the per-part regexes
-        elif matchbase and any(comp.endswith('\n') for comp in u.split('/')):
-            # KF-G6 again: the leaked `**/` prefix ends in the divider `(?:^|$|/)+`, whose `$` stops before a
-            # final newline — `?` then takes the newline.  (Without MATCHBASE a name ending in a newline was
-            # D14 — `re.match` — which is repaired: unattributed.)
-            ids.add('KF-G6')
+        # (KF-G6 — MATCHBASE leaking into the per-part regexes: `*(a)/x` returned `q/x`, `?` returned `a/a\n` — is
+        #  repaired, like D14: a glob-only result under MATCHBASE with a segment that can match empty, or a name
+        #  ending in a newline, is unattributed)
         elif os.path.islink(f) and not os.path.isdir(f) and ((('**' in text) and globstar) or matchbase):
             ids.add('KF-D7')
         elif linkdir(u) and mixed_stars:
@@ -185,12 +180,17 @@ def attribute(G, t, c, glob_only: set, match_only: set, raw_results: list[str], 
                           for j in range(1, len(comps)))
         if c.flags & G.IGNORECASE and u.lower() in {x.lower() for x in S1}:
             ids.add('KF-G2')
-        elif (('!(' in text and ext) or (nstars >= 1 and globstar)) and any(comp.endswith('\n') for comp in comps):
-            ids.add('KF-D3')                       # `$` inside the look-ahead of `!(…)` accepts before a final \n
+        elif (('!(' in text and ext) or (nstars >= 1 and globstar) or matchbase) and any(comp.endswith('\n') for comp in comps):
+            # `$` inside the look-ahead of `!(…)`, or in the divider `(?:^|$|/)+` after a `**` — written, or the
+            # implicit `**/` of MATCHBASE — accepts before a final \n (the walker has no such regex: since the G6
+            # repair its per-part regexes carry no prefix, so under MATCHBASE this difference is visible)
+            ids.add('KF-D3')
         elif not os.path.isdir(f) and any(p.rstrip('/').endswith('**') and p.endswith('/') for p in pats):
             ids.add('KF-D8')
-        elif empty_last and (os.path.isdir(f) or (globstar and nstars >= 1)):
-            ids.add('KF-G5')                       # a last segment that can match empty: `dir/*(a)` accepts `dir`
+        elif empty_last and (os.path.isdir(f) or (globstar and nstars >= 1) or matchbase):
+            # a last segment that can match empty: `dir/*(a)` accepts `dir`; after a `**/` — written, or the implicit
+            # one of MATCHBASE — it accepts every name (`**` takes the name, the segment the nothing that is left)
+            ids.add('KF-G5')
         elif matchbase and star_last and any(k.startswith('.') for k in comps) and not c.flags & G.DOTGLOB:
             ids.add('KF-D6')
         elif has_linkdir and mixed_stars:
@@ -361,11 +361,58 @@ def run(ck: Check) -> int:
         for f in found:
             ck.report(f, None)
     ck.search('glob-vs-globmatch', s_search)
+
+    def s_fixed(sr):
+        _fixed_witnesses(ck, sr, G)
+    ck.search('fixed-witnesses', s_fixed)
     if drv:
         drv.close()
     return ck.finish(assumptions=[
         "Re.runCap (first match in Python's priority order) is validated against re, not proved",
         'brace/split/tilde expansion supplied from the real _wcparse.expand'])
+
+
+# repaired defects whose old witnesses are still replayed on the real code (a reproduction is an unattributed
+# violation): (id, site, tree, pattern, flag names, what glob must return = what globmatch(REALPATH) accepts)
+FIXED_WITNESSES = [
+    ('KF-G6', 'wcmatch/glob.py:289-291', [('q', 'dir', ''), ('q/x', 'file', '')], '*(a)/x', ['EXTGLOB', 'MATCHBASE'], []),
+    ('KF-G6', 'wcmatch/glob.py:289-291', [('a', 'dir', ''), ('a/a\n', 'dir', '')], '?', ['MATCHBASE'], ['a']),
+    ('KF-G6', 'wcmatch/glob.py:289-291', [('q', 'dir', ''), ('q/x', 'file', ''), ('b', 'file', '')], '*(a|b)',
+     ['EXTGLOB', 'MATCHBASE'], ['b']),
+]
+
+
+def _fixed_witnesses(ck: Check, sr, G) -> None:
+    """the witnesses of the repaired C04 findings must NOT reproduce: `glob` returns exactly the listed paths"""
+    import shutil
+    import tempfile
+    for kid, site, tree, pat, names, want in FIXED_WITNESSES:
+        top = tempfile.mkdtemp(prefix='c04-w-', dir='/tmp')
+        try:
+            for rel, kind, _ in tree:
+                full = os.path.join(top, rel)
+                if kind == 'dir':
+                    os.makedirs(full, exist_ok=True)
+                else:
+                    os.makedirs(os.path.dirname(full), exist_ok=True)
+                    open(full, 'w').close()
+            fl = 0
+            for nm in names:
+                fl |= getattr(G, nm)
+            got = sorted(strip(p) for p in G.glob(pat, flags=fl, root_dir=top))
+            sr.evaluations += 1
+            sr.distinct += 1
+            if got != sorted(want):
+                sr.histogram[f'{kid} (fixed) witness REPRODUCED: the defect is back'] = \
+                    sr.histogram.get(f'{kid} (fixed) witness REPRODUCED: the defect is back', 0) + 1
+                ck.report(Failing(f'repaired defect {kid} is back: glob({pat!r}, {"|".join(names)}) returns paths the pattern does not denote',
+                                  {'api': 'glob.glob', 'pattern': pat, 'flags': names, 'flags_int': fl, 'exclude': None,
+                                   'tree': [list(x) for x in tree]}, sorted(want), got, site), None)
+            else:
+                sr.histogram[f'{kid} fixed witness holds'] = sr.histogram.get(f'{kid} fixed witness holds', 0) + 1
+        finally:
+            shutil.rmtree(top, ignore_errors=True)
+    sr.note = 'the witnesses of the repaired C04 findings (KF-G6), replayed on the real code: they must not reproduce'
 
 
 def replay(path: str) -> int:
